@@ -49,7 +49,7 @@ class SubprocessShellFalseTransformer(LibcstResultTransformer, NameResolutionMix
                 ):
                     self.report_change(original_node)
                     new_args = self.replace_args(
-                        original_node,
+                        updated_node,
                         [NewArg(name="shell", value="False", add_if_missing=False)],
                     )
                     return self.update_arg_target(updated_node, new_args)
